@@ -13,7 +13,7 @@ from .extract import Program
 from .sym import DeadPath, Executor, FCtx, Func, Ob, Unsupported
 
 
-def verify_function(program, lib, qual, timeout_ms=10000, only=None):
+def verify_function(program, lib, qual, timeout_ms=10000, only=None, shard=None, max_fail=0):
     """-> dict(function, hash, status, obligations=[...], error=None)"""
     t0 = time.time()
     fi = program.fn(qual)
@@ -58,6 +58,9 @@ def verify_function(program, lib, qual, timeout_ms=10000, only=None):
     out["gen_s"] = round(time.time() - t0, 3)
     # discharge, one conjunct per query
     seen = {}
+    index = -1
+    nfail = 0
+    out["generated"] = 0
     for ob in ex.obs:
         goals = smt.split_goal(ob.goal)
         for gi, g in enumerate(goals):
@@ -66,9 +69,18 @@ def verify_function(program, lib, qual, timeout_ms=10000, only=None):
             k = seen.get(ident, 0)
             seen[ident] = k + 1
             ident_k = ident if k == 0 else "%s#%d" % (ident, k)
+            index += 1
+            out["generated"] += 1
             if only and only not in ident_k:
                 continue
+            if shard and index % shard[1] != shard[0]:
+                continue
+            if max_fail and nfail >= max_fail:
+                out["obligations"].append(dict(id=ident_k, kind=ob.kind, line=ob.lineno, status="skipped", time_s=0))
+                continue
             r = smt.discharge(ob.premises, g, timeout_ms)
+            if r["status"] != "proved":
+                nfail += 1
             r.update(id=ident_k, kind=ob.kind, line=ob.lineno)
             r["time_s"] = round(r["time_s"], 4)
             out["obligations"].append(r)
